@@ -33,7 +33,8 @@ from vsc.model.constraint_block_model import ConstraintBlockModel
 from vsc.model.randomizer import Randomizer
 from vsc.model.field_scalar_model import FieldScalarModel
 from vsc.model.source_info import SourceInfo
-from vsc.types import type_base, field_info, list_t
+from vsc.types import type_base, field_info, list_t, dynamic_constraint_proxy
+from vsc.model.expr_dynref_model import ExprDynRefModel
 from vsc.model.solve_failure import SolveFailure
 from vsc.impl.constraint_proxy import ConstraintProxy
 
@@ -95,6 +96,15 @@ class _randobj:
                     ret = ret.get_val()
                 elif a == "rand_mode":
                     ret = self._int_rand_info.rand_mode
+                elif isinstance(ret, dynamic_constraint_t) and is_expr_mode():
+                    # The dynamic_constraint_t wrapper is per-type, and its
+                    # model is that of the most-recently built instance. A
+                    # reference must expand the block of *this* instance
+                    fi = object.__getattribute__(self, "_int_field_info")
+                    if fi.model is not None and a in fi.model.constraint_dynamic_m.keys():
+                        cm = fi.model.constraint_dynamic_model_l[
+                            fi.model.constraint_dynamic_m[a]]
+                        ret = dynamic_constraint_proxy(ExprDynRefModel(cm))
                 elif isinstance(ret, (constraint_t,dynamic_constraint_t)):
                     if not is_expr_mode():
                         # The constraint_t wrapper is per-type. In regular
